@@ -146,6 +146,7 @@ type faultConn struct {
 	net.Conn
 	failClose bool
 	failWrite atomic.Pointer[error] // once set, every Write fails with it
+	closed    atomic.Bool           // Close was called
 }
 
 func (f *faultConn) Write(b []byte) (int, error) {
@@ -156,6 +157,7 @@ func (f *faultConn) Write(b []byte) (int, error) {
 }
 
 func (f *faultConn) Close() error {
+	f.closed.Store(true)
 	err := f.Conn.Close()
 	if f.failClose {
 		return errors.New("close of the underlying connection failed")
@@ -169,6 +171,7 @@ type rig struct {
 	loop    func()
 	far     net.Conn
 	fc      *faultConn
+	cancel  context.CancelFunc // cancels the context the connection was created with
 	h       *handler
 	rlDone  chan struct{} // the read loop returned
 	injDone chan struct{} // the peer goroutine of readLoop finished
@@ -177,10 +180,11 @@ type rig struct {
 func newRig(tw *lineWriter, st *stats, withHandler, failClose bool) *rig {
 	a, b := net.Pipe()
 	fc := &faultConn{Conn: a, failClose: failClose}
-	conn, loop := netmc.NewMinecraftConn(context.Background(), fc, proto.ServerBound,
+	parent, cancel := context.WithCancel(context.Background())
+	conn, loop := netmc.NewMinecraftConn(parent, fc, proto.ServerBound,
 		20*time.Second, 20*time.Second, -1, nil)
 	conn.SetProtocol(version.Minecraft_1_20_2.Protocol)
-	r := &rig{tw: tw, conn: conn, loop: loop, far: b, fc: fc, rlDone: make(chan struct{}), injDone: make(chan struct{})}
+	r := &rig{tw: tw, conn: conn, loop: loop, far: b, fc: fc, cancel: cancel, rlDone: make(chan struct{}), injDone: make(chan struct{})}
 	r.h = &handler{core: &core{tw: tw, plan: map[int]string{}, thrown: st.Panics}, name: "h0"}
 	if withHandler {
 		conn.SetActiveSessionHandler(state.Play, r.h)
@@ -229,6 +233,9 @@ func (r *rig) op(thread, kind string, faults []string, closeBy string) {
 		r.tw.Emit(tracefmt.Rec{"ev": "call", "thread": thread, "op": "write"})
 		err := r.conn.WritePacket(&packet.KeepAlive{RandomID: 9})
 		r.tw.Emit(tracefmt.Rec{"ev": "ret", "thread": thread, "res": resOf(err), "err": errText(err)})
+	case "ctxcancel":
+		r.tw.Emit(tracefmt.Rec{"ev": "ctxcancel", "thread": thread})
+		r.cancel()
 	case "wreset", "wclosed":
 		// from now on the socket refuses writes the way a reset / closed TCP socket does
 		var e error = &net.OpError{Op: "write", Net: "tcp", Err: syscall.ECONNRESET}
@@ -275,8 +282,18 @@ func (r *rig) readLoop(thread string, faults []string, closeBy string) {
 			frame[0] = 9
 			frame[1] = idPlayKeepAliveSB
 			binary.BigEndian.PutUint64(frame[2:], uint64(i+1))
-			r.far.SetWriteDeadline(time.Now().Add(20 * time.Second))
-			if _, err := r.far.Write(frame[:]); err != nil {
+			// short deadlines: stop as soon as the connection reports closed (nobody may be reading)
+			rest, began, gaveUp := frame[:], time.Now(), false
+			for len(rest) > 0 && !gaveUp {
+				r.far.SetWriteDeadline(time.Now().Add(100 * time.Millisecond))
+				k, err := r.far.Write(rest)
+				rest = rest[k:]
+				if err != nil && (!errors.Is(err, os.ErrDeadlineExceeded) || r.conn.Context().Err() != nil ||
+					time.Since(began) > 20*time.Second) {
+					gaveUp = true
+				}
+			}
+			if gaveUp {
 				break
 			}
 		}
@@ -316,7 +333,8 @@ func (r *rig) readLoop(thread string, faults []string, closeBy string) {
 // finish: a final Close and a write after it, wait for the read loop, end.
 func (r *rig) finish(loopStarted bool) {
 	// everything came to rest: if the connection reports closed, the read loop ends too
-	if r.conn.Context().Err() != nil && loopStarted {
+	// (the underlying connection closed, not merely the context cancelled from outside)
+	if r.fc.closed.Load() && loopStarted {
 		select {
 		case <-r.rlDone:
 		case <-time.After(20 * time.Second):
@@ -447,7 +465,7 @@ func runStress(tw *lineWriter, st *stats, n int, rng *rand.Rand) {
 	failClose := rng.Intn(3) == 0
 	tw.Emit(tracefmt.Rec{"ev": "reset", "n": n, "mode": "stress", "handler": true, "closefail": failClose})
 	r := newRig(tw, st, true, failClose)
-	kinds := []string{"close", "unknown", "closewith", "write", "write", "switch", "switchw", "wreset", "wclosed"}
+	kinds := []string{"close", "unknown", "closewith", "write", "write", "switch", "switchw", "wreset", "wclosed", "ctxcancel"}
 	panics := []string{"none", "perr", "pstr", "prt", "pnil"}
 	var faults []string
 	for k := rng.Intn(6); k > 0; k-- {
